@@ -14,6 +14,7 @@ import (
 	"sync/atomic"
 	"time"
 
+	"github.com/pion/ice/v4/internal/verifhook"
 	"github.com/pion/logging"
 	"github.com/pion/transport/v4/packetio"
 )
@@ -148,6 +149,7 @@ func (t *tcpPacketConn) AddConn(conn net.Conn, firstPacketData []byte) error {
 		conn.LocalAddr(),
 	)
 
+	verifhook.Yield("tm.addconn")
 	t.mu.Lock()
 	defer t.mu.Unlock()
 
